@@ -24,6 +24,9 @@ mod logs;
 mod main_event_loop;
 mod storage;
 mod template;
+#[cfg(feature = "breard_r_acmed_verif")]
+#[path = "/verif/probe/probe.rs"]
+mod verif_probe;
 
 pub const APP_NAME: &str = "ACMEd";
 pub const APP_THREAD_NAME: &str = "acmed-runtime";
@@ -65,6 +68,11 @@ fn main() {
 }
 
 async fn inner_main() {
+	#[cfg(feature = "breard_r_acmed_verif")]
+	if std::env::var_os("ACMED_VERIF_RUN").is_some() {
+		verif_probe::run().await;
+		return;
+	}
 	let full_version = format!(
 		"{APP_VERSION} built for {}\n\nCryptographic library:\n - {} {}\nHTTP client library:\n - {} {}",
 		env!("ACMED_TARGET"),
